@@ -4,6 +4,7 @@ import (
 	"fmt"
 	"go/token"
 	"go/types"
+	"sort"
 	"strings"
 
 	"golang.org/x/tools/go/ssa"
@@ -12,6 +13,7 @@ import (
 // ---------------------------------------------------------------- write sets (syntactic over-approximation)
 
 type writeSet struct {
+	heapCells map[*ssa.Alloc]bool // address-taken locals of the scanned function stored to directly
 	cells  map[*ssa.Alloc]bool
 	heaps  map[string]string // heap key -> sort
 	allocs bool
@@ -69,6 +71,9 @@ func (ex *Exec) scanWrites(fn *ssa.Function, blocks map[*ssa.BasicBlock]bool, ws
 					ws.cells[a] = true
 				} else if a, ok := r.(*ssa.Alloc); ok && a.Heap && (&Frame{ex: ex}).readOnlyCell(a) {
 					// initialisation of a read-only (phantom) cell: no heap write
+				} else if a, ok := r.(*ssa.Alloc); ok && a.Heap && depth == 0 && ws.heapCells != nil {
+					ws.heapCells[a] = true
+					addPtrHeap(a.Type().(*types.Pointer).Elem())
 				} else if ia, ok := r.(*ssa.IndexAddr); ok {
 					// slice element store: written back through the origin place; approximate by the origin's root
 					if ld, ok := ia.X.(*ssa.UnOp); ok {
@@ -612,7 +617,7 @@ func (fr *Frame) enterLoop(li *loopInfo, cur *State) *State {
 	}
 	li.entrySt = cur.clone()
 	// 2. havoc
-	ws := &writeSet{cells: map[*ssa.Alloc]bool{}, heaps: map[string]string{}}
+	ws := &writeSet{cells: map[*ssa.Alloc]bool{}, heaps: map[string]string{}, heapCells: map[*ssa.Alloc]bool{}}
 	ex.scanWrites(fr.fn, li.body, ws, 0, map[*ssa.Function]bool{})
 	h := cur.clone()
 	for a := range ws.cells {
@@ -640,6 +645,23 @@ func (fr *Frame) enterLoop(li *loopInfo, cur *State) *State {
 		tc := fr.loopCtx(li, cur)
 		lsTargets, lsWhole = ex.resolveTargets(tc, li.spec.Modifies)
 		tc.flush()
+		// address-taken locals of this function that the loop body assigns (range copies, accumulators whose
+		// address is passed on) are implicitly part of the loop's frame
+		var hcs []*ssa.Alloc
+		for a := range ws.heapCells {
+			hcs = append(hcs, a)
+		}
+		sort.Slice(hcs, func(i, j int) bool { return hcs[i].Pos() < hcs[j].Pos() })
+		for _, a := range hcs {
+			v, ok := fr.env[a]
+			if !ok || v.place == nil || v.place.kind != pkHeap || v.place.phantom || len(v.place.path) != 0 {
+				continue
+			}
+			et := a.Type().(*types.Pointer).Elem()
+			k, srt := S.heapKeyPtr(et)
+			vc.heapSorts[k] = srt
+			lsTargets = append(lsTargets, modTarget{heapKey: k, ref: v.place.ref, elem: et, src: "local " + a.Comment})
+		}
 	}
 	if ws.all {
 		ex.havocAll(h)
